@@ -3,15 +3,20 @@
 package main
 
 import (
+	"crypto"
 	"crypto/ecdsa"
 	"crypto/elliptic"
 	"crypto/rand"
+	"crypto/rsa"
+	"crypto/x509"
+	"encoding/pem"
 	"errors"
 	"fmt"
 	"reflect"
 	"regexp"
 	"slices"
 	"strconv"
+	"sync"
 
 	"github.com/pion/webrtc/v4"
 	"github.com/pion/webrtc/v4/pkg/rtcerr"
@@ -37,7 +42,7 @@ type c39Config struct {
 	Bundle    int         `json:"bundle"`
 	RTCPMux   int         `json:"rtcpmux"`
 	Identity  string      `json:"identity"`
-	Certs     []int       `json:"certs"` // indices into the certificate pool; 3 = zero Certificate{}
+	Certs     []int       `json:"certs"` // indices into the certificate pool (c39InitCerts); 3 = zero Certificate{}
 	Pool      int         `json:"pool"`
 	Semantics int         `json:"semantics"`
 	AlwaysDC  bool        `json:"always_dc"`
@@ -53,23 +58,131 @@ type c39Case struct {
 	Steps []c39Step `json:"steps"`
 }
 
-var c39Certs []webrtc.Certificate
+// The certificate pool.  Keys k0,k1,k2 are ECDSA P-256, k3 is RSA-2048.
+//
+//	0 (k0,a)  1 (k1,a)  2 (k2,a)      GenerateCertificate(k)
+//	3                                 the zero Certificate{} (only ever an argument)
+//	4 (k0,b)  5 (k1,b)                GenerateCertificate of the SAME key again: another
+//	                                  serial number and validity, a different certificate
+//	6 (k0,a)                          certificate 0 exported with PEM() and re-imported with
+//	                                  CertificateFromPEM: the same certificate
+//	7 (k3,a)  8 (k3,b)                the same for an RSA key
+//	9 (k1, x509 of 0)                 CertificateFromX509(k1, certificate 0's x509): the same
+//	                                  x509 certificate held with another key
+//	10 (k4, x509 of 7)                the same for RSA: another RSA key k4 with certificate 7's x509
+//	11 (k0, x509 of 7)                an ECDSA key with the RSA certificate 7's x509 (key type differs)
+var (
+	c39Certs   []webrtc.Certificate
+	c39KeyIDs  = map[string]int{} // PKCS#8 bytes of a private key -> key id
+	c39X509IDs = map[string]int{} // DER bytes of an x509 certificate -> id (pool index of its first holder)
+)
 
-func c39InitCerts() {
-	if c39Certs != nil {
-		return
+// what a Certificate is, read off the bytes it exports -- independent of
+// Certificate.Equals: (key type 0 none/1 RSA/2 ECDSA, key id, x509 id);
+// anything not in the pool (the certificate pion generates itself) is id 100
+func c39Ident(c webrtc.Certificate) (id [3]int) {
+	defer func() {
+		if recover() != nil { // the zero Certificate{} has nothing to export
+			id = [3]int{0, 0, 0}
+		}
+	}()
+	text, err := c.PEM()
+	if err != nil {
+		return [3]int{0, 0, 0}
 	}
+	id = [3]int{0, 100, 100}
+	rest := []byte(text)
+	for {
+		var blk *pem.Block
+		blk, rest = pem.Decode(rest)
+		if blk == nil {
+			break
+		}
+		switch blk.Type {
+		case "CERTIFICATE":
+			if n, ok := c39X509IDs[string(blk.Bytes)]; ok {
+				id[2] = n
+			}
+		case "PRIVATE KEY":
+			k, err := x509.ParsePKCS8PrivateKey(blk.Bytes)
+			if err != nil {
+				panic(err)
+			}
+			switch k.(type) {
+			case *rsa.PrivateKey:
+				id[0] = 1
+			case *ecdsa.PrivateKey:
+				id[0] = 2
+			}
+			if n, ok := c39KeyIDs[string(blk.Bytes)]; ok {
+				id[1] = n
+			}
+		}
+	}
+	return id
+}
+
+var c39PoolOnce sync.Once
+
+func c39InitCerts() { c39PoolOnce.Do(c39BuildPool) }
+
+func c39BuildPool() {
+	must := func(err error) {
+		if err != nil {
+			panic(err)
+		}
+	}
+	var keys []crypto.PrivateKey
 	for i := 0; i < 3; i++ {
 		sk, err := ecdsa.GenerateKey(elliptic.P256(), rand.Reader)
-		if err != nil {
-			panic(err)
-		}
-		c, err := webrtc.GenerateCertificate(sk)
-		if err != nil {
-			panic(err)
-		}
-		c39Certs = append(c39Certs, *c)
+		must(err)
+		keys = append(keys, sk)
 	}
+	for i := 0; i < 2; i++ { // k3, k4
+		rk, err := rsa.GenerateKey(rand.Reader, 2048)
+		must(err)
+		keys = append(keys, rk)
+	}
+	for i, k := range keys {
+		b, err := x509.MarshalPKCS8PrivateKey(k)
+		must(err)
+		c39KeyIDs[string(b)] = i
+	}
+	gen := func(k int) webrtc.Certificate {
+		c, err := webrtc.GenerateCertificate(keys[k])
+		must(err)
+		return *c
+	}
+	derOf := func(c webrtc.Certificate) []byte {
+		text, err := c.PEM()
+		must(err)
+		blk, _ := pem.Decode([]byte(text))
+		return blk.Bytes
+	}
+	pool := make([]webrtc.Certificate, 12)
+	pool[0], pool[1], pool[2] = gen(0), gen(1), gen(2)
+	pool[3] = webrtc.Certificate{}
+	pool[4], pool[5] = gen(0), gen(1)
+	text, err := pool[0].PEM()
+	must(err)
+	re, err := webrtc.CertificateFromPEM(text)
+	must(err)
+	pool[6] = *re
+	pool[7], pool[8] = gen(3), gen(3)
+	x0, err := x509.ParseCertificate(derOf(pool[0]))
+	must(err)
+	pool[9] = webrtc.CertificateFromX509(keys[1], x0)
+	x7, err := x509.ParseCertificate(derOf(pool[7]))
+	must(err)
+	pool[10] = webrtc.CertificateFromX509(keys[4], x7)
+	pool[11] = webrtc.CertificateFromX509(keys[0], x7)
+	for _, i := range []int{0, 1, 2, 4, 5, 7, 8} {
+		c39X509IDs[string(derOf(pool[i]))] = i
+	}
+	if len(c39X509IDs) != 7 {
+		panic("certificates generated for one key are not distinct")
+	}
+	c39Certs = pool
 }
 
 func c39ServerValid(s c39Server) bool {
@@ -131,11 +244,7 @@ func c39Make(c c39Config) webrtc.Configuration {
 		out.ICEServers = append(out.ICEServers, c39MakeServer(s))
 	}
 	for _, i := range c.Certs {
-		if i == 3 {
-			out.Certificates = append(out.Certificates, webrtc.Certificate{})
-		} else {
-			out.Certificates = append(out.Certificates, c39Certs[i])
-		}
+		out.Certificates = append(out.Certificates, c39Certs[i])
 	}
 	return out
 }
@@ -159,13 +268,9 @@ func c39ServerID(s webrtc.ICEServer) int {
 	return -1
 }
 
-func c39CertID(c webrtc.Certificate) int {
-	for i := range c39Certs {
-		if c39Certs[i].Equals(c) {
-			return i
-		}
-	}
-	return 100 // generated by pion
+func c39CertV(c webrtc.Certificate) V {
+	id := c39Ident(c)
+	return VL{VZ(int64(id[0])), VZ(int64(id[1])), VZ(int64(id[2]))}
 }
 
 func c39Project(c webrtc.Configuration) V {
@@ -174,7 +279,7 @@ func c39Project(c webrtc.Configuration) V {
 		sv = append(sv, VZ(c39ServerID(s)))
 	}
 	for _, x := range c.Certificates {
-		cs = append(cs, VZ(c39CertID(x)))
+		cs = append(cs, c39CertV(x))
 	}
 	if sv == nil {
 		sv = VL{}
@@ -195,13 +300,24 @@ func c39Snapshot(c webrtc.Configuration) webrtc.Configuration {
 	return c
 }
 
+// the same certificates in the same order: same key bytes and same x509
+// bytes, entry by entry (the zero Certificate{} is the same as nothing).
+// Deliberately not Certificate.Equals.
 func c39CertsEqual(a, b []webrtc.Certificate) bool {
 	if len(a) != len(b) {
 		return false
 	}
 	for i := range a {
-		if !a[i].Equals(b[i]) {
+		ia, ib := c39Ident(a[i]), c39Ident(b[i])
+		if ia[0] == 0 || ia != ib {
 			return false
+		}
+		if ia[1] == 100 || ia[2] == 100 { // outside the pool: compare what they export
+			ta, _ := a[i].PEM()
+			tb, _ := b[i].PEM()
+			if ta != tb {
+				return false
+			}
 		}
 	}
 	return true
@@ -230,6 +346,37 @@ func c39Diff(a, b webrtc.Configuration) string {
 		return "ice-servers"
 	}
 	return ""
+}
+
+// how a named certificate list relates to the stored one (input distribution only)
+func c39CertSituation(cur, new []webrtc.Certificate) string {
+	if c39CertsEqual(cur, new) {
+		return "same"
+	}
+	if len(cur) == len(new) {
+		keyOnly, x509Only := true, true
+		multiset := map[[3]int]int{}
+		for i := range cur {
+			a, b := c39Ident(cur[i]), c39Ident(new[i])
+			keyOnly = keyOnly && a[0] != 0 && a[0] == b[0] && a[1] == b[1]
+			x509Only = x509Only && a[2] == b[2] && b[0] != 0
+			multiset[a]++
+		}
+		if keyOnly {
+			return "same-key-other-x509"
+		}
+		if x509Only {
+			return "same-x509-other-key"
+		}
+		all := true
+		for i := range new {
+			all = all && multiset[c39Ident(new[i])] > 0
+		}
+		if all {
+			return "reordered-or-duplicated"
+		}
+	}
+	return "other"
 }
 
 var c39ClassCode = map[string]int{"ok": 0, "InvalidState": 1, "InvalidModification": 2, "InvalidAccess": 3, "NotSupported": 4, "other": 9}
@@ -273,6 +420,7 @@ func c39Run(c c39Case) (V, Verdict) {
 	closed, haveDC := false, false
 	nSet, nRejected, nAccepted := 0, 0, 0
 	phases := map[string]bool{}
+	certSit := map[string]bool{}
 	for k, st := range c.Steps {
 		switch st.K {
 		case 1:
@@ -328,6 +476,9 @@ func c39Run(c c39Case) (V, Verdict) {
 			}
 			phases[phase+"/"+class] = true
 			// ---- direct oracle ----
+			if len(newCfg.Certificates) > 0 {
+				certSit[c39CertSituation(before.Certificates, newCfg.Certificates)] = true
+			}
 			attempt := ""
 			switch {
 			case newCfg.PeerIdentity != "" && newCfg.PeerIdentity != before.PeerIdentity:
@@ -390,6 +541,12 @@ func c39Run(c c39Case) (V, Verdict) {
 	if verdict.OK {
 		verdict.NonTrivial = nSet >= 1
 		verdict.Class = fmt.Sprintf("sets%d/rejected%d/accepted%d/phases%d", min(nSet, 4), min(nRejected, 3), min(nAccepted, 3), len(phases))
+		for _, k := range []string{"same-x509-other-key", "reordered-or-duplicated", "same-key-other-x509", "other", "same"} {
+			if certSit[k] { // the most specific certificate situation the case contains
+				verdict.Class += "/certs:" + k
+				break
+			}
+		}
 	}
 	return obs, verdict
 }
@@ -407,9 +564,11 @@ func c39ConfigCoq(c c39Config) string {
 	for i, s := range c.Servers {
 		sv[i] = c39ServerCoq(s)
 	}
+	c39InitCerts()
 	cs := make([]string, len(c.Certs))
 	for i, x := range c.Certs {
-		cs[i] = fmt.Sprint(x)
+		id := c39Ident(c39Certs[x])
+		cs[i] = fmt.Sprintf("mkcert %d %d %d", id[0], id[1], id[2])
 	}
 	return fmt.Sprintf("(mkc %s %d %d %d %s %s %d %d %s)", CoqList(sv), c.Policy, c.Bundle, c.RTCPMux,
 		CoqString(c.Identity), CoqList(cs), c.Pool, c.Semantics, CoqBool(c.AlwaysDC))
@@ -510,11 +669,11 @@ func (g *c39Gen) newConfig(cur c39Config) c39Config {
 	case 2:
 		n.Identity = Pick(r, []string{"a", "b", "c"})
 	}
-	switch mode() {
+	switch Pick(r, []int{0, 0, 1, 1, 1, 2, 2, 2}) { // certificates: changed more often, there are more ways
 	case 1:
 		n.Certs = append([]int{}, cur.Certs...)
 	case 2:
-		n.Certs = Pick(r, [][]int{{0}, {1}, {2}, {0, 1}, {1, 0}, {0, 1, 2}, {3}, {0, 3}})
+		n.Certs = c39ChangeCerts(r, cur.Certs)
 	}
 	if n.Certs == nil {
 		n.Certs = []int{}
@@ -540,10 +699,76 @@ func (g *c39Gen) newConfig(cur c39Config) c39Config {
 	return n
 }
 
+// another certificate for the same key (a renewal), both ways
+var c39Renewed = map[int][]int{0: {4}, 4: {0, 6}, 6: {4}, 1: {5}, 5: {1}, 7: {8}, 8: {7}}
+
+// the same certificate through another object (PEM round trip)
+var c39Reimported = map[int]int{0: 6, 6: 0}
+
+// a certificate list that relates to the stored one in one of the ways a
+// caller can get wrong -- or, for the re-import, right
+func c39ChangeCerts(r *Rand, cur []int) []int {
+	out := append([]int{}, cur...)
+	subst := func(m func(int) (int, bool)) bool {
+		start := r.Intn(len(out))
+		for d := range out {
+			i := (start + d) % len(out)
+			if v, ok := m(out[i]); ok {
+				out[i] = v
+				return true
+			}
+		}
+		return false
+	}
+	if len(cur) > 0 {
+		switch r.Intn(8) {
+		case 0, 1, 2: // same key, other x509 certificate, at one position
+			if subst(func(x int) (int, bool) {
+				if l := c39Renewed[x]; len(l) > 0 {
+					return Pick(r, l), true
+				}
+				return 0, false
+			}) {
+				return out
+			}
+		case 3: // re-imported from PEM: still the same certificate
+			if subst(func(x int) (int, bool) { v, ok := c39Reimported[x]; return v, ok }) {
+				return out
+			}
+		case 4: // re-ordered
+			if len(out) >= 2 {
+				out[0], out[len(out)-1] = out[len(out)-1], out[0]
+				return out
+			}
+		case 5: // one entry duplicated over another / appended
+			if len(out) >= 2 {
+				out[r.Intn(len(out))] = out[r.Intn(len(out))]
+				return out
+			}
+			return append(out, out[0])
+		case 6: // the same x509 certificate held with another key
+			if subst(func(x int) (int, bool) {
+				switch x {
+				case 0, 6:
+					return 9, true
+				case 7:
+					return Pick(r, []int{10, 11}), true
+				}
+				return 0, false
+			}) {
+				return out
+			}
+		case 7: // an entry dropped
+			return out[:len(out)-1]
+		}
+	}
+	return Pick(r, [][]int{{0}, {1}, {2}, {4}, {7}, {8}, {0, 1}, {1, 0}, {0, 4}, {0, 1, 2}, {3}, {0, 3}, {9}, {6}, {10}, {11}})
+}
+
 func c39GenCase(r *Rand, i int) c39Case {
 	g := &c39Gen{r: r}
 	init := c39Config{Servers: g.servers(false), Policy: r.Intn(3), Bundle: r.Intn(4), RTCPMux: r.Intn(3),
-		Identity: Pick(r, []string{"", "", "a", "b"}), Certs: Pick(r, [][]int{{}, {}, {0}, {1}, {0, 1}, {2, 0}}),
+		Identity: Pick(r, []string{"", "", "a", "b"}), Certs: Pick(r, [][]int{{}, {}, {0}, {0}, {1}, {0, 1}, {2, 0}, {4}, {6}, {7}, {8, 1}, {0, 4}, {5, 7, 0}}),
 		Pool: Pick(r, []int{0, 0, 1}), Semantics: Pick(r, []int{0, 0, 2}), AlwaysDC: r.Chance(1, 4)}
 	c := c39Case{Init: init}
 	n := r.Range(1, 5)
@@ -589,7 +814,7 @@ func init() {
 	Register(Spec[c39Case]{
 		ID: "C39", Suite: "hist", CoqImports: []string{"Check.C39"},
 		CoqType: "config * list istep", CoqRun: "Check.C39.run",
-		Quick: 600, Thorough: 40000, Parallel: 8,
+		Quick: 600, Thorough: 25000, Parallel: 8,
 		Corpus: func() []c39Case {
 			base := c39Config{Servers: []c39Server{}, Certs: []int{0}, Identity: "a", Bundle: 2, RTCPMux: 1, Pool: 1}
 			same := base
@@ -605,6 +830,20 @@ func init() {
 				{Init: base, Steps: []c39Step{set(c39Config{Servers: []c39Server{{ID: 1, URLs: []int{1}}, {ID: 2, URLs: []int{2}, User: true}},
 					Certs: []int{0}, Identity: "a", Bundle: 2, RTCPMux: 1, Policy: 1, AlwaysDC: true})}},
 				{Init: base, Steps: []c39Step{{K: 2}, set(same), {K: 1}}},
+				// another certificate generated for the SAME key: a different certificate
+				{Init: base, Steps: []c39Step{set(c39Config{Servers: []c39Server{}, Certs: []int{4}}), {K: 1},
+					set(c39Config{Servers: []c39Server{}, Certs: []int{4}})}},
+				{Init: c39Config{Servers: []c39Server{}, Certs: []int{7, 1}}, Steps: []c39Step{
+					set(c39Config{Servers: []c39Server{}, Certs: []int{8, 1}}), set(c39Config{Servers: []c39Server{}, Certs: []int{7, 5}}),
+					set(c39Config{Servers: []c39Server{}, Certs: []int{10, 1}}), set(c39Config{Servers: []c39Server{}, Certs: []int{11, 1}}),
+					set(c39Config{Servers: []c39Server{}, Certs: []int{7, 1}})}},
+				// the same certificate re-imported from PEM is the same certificate
+				{Init: base, Steps: []c39Step{set(c39Config{Servers: []c39Server{}, Certs: []int{6}, Policy: 1}),
+					set(c39Config{Servers: []c39Server{}, Certs: []int{0}})}},
+				// re-ordered, duplicated, same x509 certificate with another key
+				{Init: c39Config{Servers: []c39Server{}, Certs: []int{0, 1}}, Steps: []c39Step{
+					set(c39Config{Servers: []c39Server{}, Certs: []int{1, 0}}), set(c39Config{Servers: []c39Server{}, Certs: []int{0, 0}}),
+					set(c39Config{Servers: []c39Server{}, Certs: []int{9, 1}}), set(c39Config{Servers: []c39Server{}, Certs: []int{0, 1}})}},
 			}
 		},
 		Gen: c39GenCase, Run: c39Run, Coq: c39Coq, Shrink: c39Shrink,
